@@ -426,9 +426,18 @@ func c07Loop(c *core.Ctx) {
 		nonzero := false
 		desc := "data packet buffer is not a fresh make([]byte, n)"
 		if fresh {
-			iv := core.EvalInt(ms.Len, snd.Block())
+			// the length is the byte count n itself, or len(buf[:n]) of the read buffer cut to the count
+			nv := ms.Len
+			if lc, ok := nv.(*ssa.Call); ok {
+				if bi, ok := lc.Call.Value.(*ssa.Builtin); ok && bi.Name() == "len" {
+					if sl, ok := lc.Call.Args[0].(*ssa.Slice); ok && sl.Low == nil && sl.High != nil {
+						nv = sl.High
+					}
+				}
+			}
+			iv := core.EvalInt(nv, snd.Block())
 			// n is the byte count returned by ReadFrom: 0 <= n (io contract); != 0 must be established by a branch
-			if ex, ok := ms.Len.(*ssa.Extract); ok && ex.Index == 0 {
+			if ex, ok := nv.(*ssa.Extract); ok && ex.Index == 0 {
 				if cl, ok := ex.Tuple.(*ssa.Call); ok {
 					if f := core.Callee(cl); f != nil && (f.Name() == "ReadFrom" || f.Name() == "ReadFromUDP" || f.Name() == "Read") {
 						if iv.Lo < 0 {
@@ -436,7 +445,7 @@ func c07Loop(c *core.Ctx) {
 						}
 						// re-apply `n != 0` / `n > 0` facts on the seeded lower bound
 						for _, ft := range core.FactsAt(snd.Block()) {
-							if cmp, ok := ft.V.(*ssa.BinOp); ok && cmp.X == ms.Len {
+							if cmp, ok := ft.V.(*ssa.BinOp); ok && cmp.X == nv {
 								if k, ok := core.ConstInt(cmp.Y); ok {
 									if (cmp.Op == token.EQL && k == 0 && !ft.True) || (cmp.Op == token.NEQ && k == 0 && ft.True) ||
 										(cmp.Op == token.GTR && k == 0 && ft.True) || (cmp.Op == token.LEQ && k == 0 && !ft.True) ||
